@@ -318,7 +318,8 @@ func (p *Parser) parseComparisonExpression() (ast.Expression, error) {
 		// Check for ANY/ALL subquery operators (uses O(1) switch instead of O(n) isAnyType)
 		if p.isQuantifier() {
 			quantifier := p.currentToken.Literal
-			p.advance() // Consume ANY/ALL
+			isAny := p.isType(models.TokenTypeAny) // by token type: the literal keeps the written letter case
+			p.advance()                            // Consume ANY/ALL
 
 			// Expect opening parenthesis
 			if !p.isType(models.TokenTypeLParen) {
@@ -345,7 +346,7 @@ func (p *Parser) parseComparisonExpression() (ast.Expression, error) {
 			}
 			p.advance() // Consume )
 
-			if quantifier == "ANY" {
+			if isAny {
 				return &ast.AnyExpression{
 					Expr:     left,
 					Operator: operator,
